@@ -169,11 +169,15 @@ func (store *BaseStore[E]) createCompositeEntitySymbol(name string, first linked
 		}
 	}
 	return &compositeEntitySetSymbol{
-		name:        name,
-		symbolType:  rest.GetType(),
-		chain:       iterable,
-		cursor:      nil,
-		cursorLastF: last.Eval,
+		name:       name,
+		symbolType: rest.GetType(),
+		chain:      iterable,
+		cursor:     nil,
+		// the stacked cursor's key still carries the type byte; last.Eval expects the row id
+		cursorLastF: func(tx *bbolt.Tx, key []byte) (FieldType, []byte) {
+			_, rowKey := GetTypeAndValue(key)
+			return last.Eval(tx, rowKey)
+		},
 	}
 }
 
